@@ -248,4 +248,19 @@ CLAIMS = {
               "flattening (C06/C11)."),
         technique="static analysis: builder summaries (ordered emits under loops and guards), piecewise-affine region analysis of repetition counts, pinned normal forms of annotation arguments, sibling comparison",
     ),
+    "C10": dict(
+        text=("Claimed in part; that no two operations overlap is a timing fact over all inputs and duration settings and is NOT decided. Decided "
+              "(necessary conditions, for all constructor inputs and all positive durations): the refocusing wait has the affine form max(0, "
+              "(READOUT - MICROWAVE)/2) and, with Rx180 lasting MICROWAVE and the measurement READOUT (duration keys read from the class "
+              "defaults), the echo Wait, Rx180, Wait lasts at least READOUT in both regions READOUT >= MICROWAVE and READOUT < MICROWAVE -- decided "
+              "coefficient-wise on the extracted form; the structural delimiters: an unconditional all-qubit barrier right before the parity "
+              "measurements and closing the refocusing round, every activation / gate+park / phase-update group closed by an all-qubit barrier on "
+              "every body path on which the group can be non-empty (feasibility by truth table), preparation wrapped in two barriers, reset of "
+              "every prepared qubit before heralded measurement, calibration pulses and final measurements FOLLOWED_BY the last operation of the "
+              "preceding group (relation re-taken between the groups); and duration changes invalidate memoised times (shared C03.H1)."),
+        note=("NOT decided: absence of overlap in general (sub-agents report overlaps on the unchanged tree for the simplified constructor with "
+              ">= 2 cycles and a Ry90 inside a barrier for 6 cycles after unrolling -- run-time facts outside this family, recorded in DESIGN 5b). "
+              "Trusted: barriers separate what precedes from what follows on their qubits (C01/C19)."),
+        technique="static analysis: affine normal form with region-wise sign decision; builder summaries with must-be-closed (typestate) analysis of emit groups per feasible body path",
+    ),
 }
